@@ -396,6 +396,7 @@ package swamp
 //@   before Vigil.WaitForActiveVigilsClosed [inflow_is_stopped_before_the_vigils_are_drained] s.closing == 1
 //@   before Chronicler.Destroy [storage_is_destroyed_only_after_the_drain] calls("Vigil.WaitForActiveVigilsClosed") == old(calls("Vigil.WaitForActiveVigilsClosed")) + 1
 //@   ensures[closing_flag_set] s.closing == 1
+//@   ensures[teardown_cancels_the_context_graceful_waiters_block_on] calls("Vigil.WaitForActiveVigilsClosed") > old(calls("Vigil.WaitForActiveVigilsClosed")) ==> calls("s.goRoutineCancelFunction") == old(calls("s.goRoutineCancelFunction")) + 1
 //@   ensures[teardown_reports_closed_once] calls("swamp.sendClosedEvent") <= old(calls("swamp.sendClosedEvent")) + 1 && (calls("Vigil.WaitForActiveVigilsClosed") > old(calls("Vigil.WaitForActiveVigilsClosed")) ==> calls("swamp.sendClosedEvent") == old(calls("swamp.sendClosedEvent")) + 1)
 //@   ensures[second_destroy_is_a_no_op] old(s.destroyed) ==> calls("Vigil.WaitForActiveVigilsClosed") == old(calls("Vigil.WaitForActiveVigilsClosed")) && calls("swamp.sendClosedEvent") == old(calls("swamp.sendClosedEvent"))
 
